@@ -571,18 +571,65 @@ func ruleC07(c *Ctx, r *Report) {
 		r.undecided(rule, "proxy/router", "anchor", "-", "package not loaded")
 		return
 	}
-	protected := func(t types.Type) bool {
-		n := namedOf(t)
-		if n == nil {
-			return false
+	// protected set: struct types of proxy/router and SequenceManager, closed under "is held in a field of" for struct
+	// types of the module (e.g. util.MurmurHash hangs off the murmur shard and is shared by all sessions as well)
+	protSet := map[*types.Named]bool{}
+	var work []*types.Named
+	addProt := func(n *types.Named) {
+		if n == nil || protSet[n] {
+			return
 		}
 		if _, isStruct := n.Underlying().(*types.Struct); !isStruct {
-			return false
+			return
 		}
-		if n.Obj().Pkg() == routerPkg.Pkg {
-			return true
+		if n.Obj().Pkg() == nil || !strings.HasPrefix(n.Obj().Pkg().Path(), modPath) {
+			return
 		}
-		return seqMgr != nil && n == seqMgr
+		protSet[n] = true
+		work = append(work, n)
+	}
+	for _, m := range routerPkg.Members {
+		if tn, ok := m.(*ssa.Type); ok {
+			addProt(namedOf(tn.Type()))
+		}
+	}
+	addProt(seqMgr)
+	var walkT func(t types.Type, d int)
+	walkT = func(t types.Type, d int) {
+		if d > 6 {
+			return
+		}
+		switch x := types.Unalias(t).(type) {
+		case *types.Pointer:
+			walkT(x.Elem(), d+1)
+		case *types.Slice:
+			walkT(x.Elem(), d+1)
+		case *types.Array:
+			walkT(x.Elem(), d+1)
+		case *types.Map:
+			walkT(x.Key(), d+1)
+			walkT(x.Elem(), d+1)
+		case *types.Named:
+			addProt(x)
+		}
+	}
+	for len(work) > 0 {
+		n := work[len(work)-1]
+		work = work[:len(work)-1]
+		st := n.Underlying().(*types.Struct)
+		for i := 0; i < st.NumFields(); i++ {
+			walkT(st.Field(i).Type(), 0)
+		}
+	}
+	var protNames []string
+	for n := range protSet {
+		protNames = append(protNames, n.Obj().Pkg().Name()+"."+n.Obj().Name())
+	}
+	sort.Strings(protNames)
+	r.note("protected types (%d): %s", len(protNames), strings.Join(protNames, " "))
+	protected := func(t types.Type) bool {
+		n := namedOf(t)
+		return n != nil && protSet[n]
 	}
 	// rootProtected: follow the address chain (field/index addresses, and loads of fields that hold maps/slices/pointers)
 	// down to its base; report the first protected struct type met on the way and the base value.
@@ -685,6 +732,14 @@ func ruleC07(c *Ctx, r *Report) {
 			writers[fn] = append(writers[fn], write{fn, in, what + ":" + namedOf(prot).Obj().Name() + fld})
 		})
 	}
+	// shared slices: values that alias a slice stored in routing configuration; appending to them (or storing through
+	// them) can write the shared backing array although no store to a protected field appears in the SSA
+	sharedW := c.sharedSliceWrites(protected)
+	for fn, ws := range sharedW {
+		for _, w := range ws {
+			writers[fn] = append(writers[fn], write{fn, w.in, w.what})
+		}
+	}
 	// roots
 	var roots []*ssa.Function
 	roots = append(roots, c.Method(serverRel, "Server", "onConn"), c.Method(serverRel, "Session", "Run"))
@@ -764,4 +819,177 @@ func funcPkgPath(fn *ssa.Function) string {
 		fn = fn.Parent()
 	}
 	return ""
+}
+
+type sharedWrite struct {
+	in   ssa.Instruction
+	what string
+}
+
+// sharedSliceWrites: context-insensitive taint of slice values that alias slices held in protected objects, through
+// sub-slicing, phis, function results and arguments (not through fields of other objects); reports append() with a
+// tainted first argument, element stores and in-place sorts.
+func (c *Ctx) sharedSliceWrites(protected func(types.Type) bool) map[*ssa.Function][]sharedWrite {
+	inScope := func(fn *ssa.Function) bool {
+		p := funcPkgPath(fn)
+		return strings.HasPrefix(p, modPath+"/proxy/") || p == modPath+"/util" || strings.HasPrefix(p, modPath+"/util/")
+	}
+	var fns []*ssa.Function
+	for _, fn := range c.Funcs {
+		if inScope(fn) && !c.IsMockFunc(fn) {
+			fns = append(fns, fn)
+		}
+	}
+	shared := map[ssa.Value]bool{}
+	retShared := map[*ssa.Function]map[int]bool{}
+	isSliceT := func(t types.Type) bool { _, ok := t.Underlying().(*types.Slice); return ok }
+	// implementations by method name for interface invokes
+	byName := map[string][]*ssa.Function{}
+	for _, fn := range fns {
+		if fn.Signature.Recv() != nil {
+			byName[fn.Name()] = append(byName[fn.Name()], fn)
+		}
+	}
+	cg := c.CallGraph()
+	siteCallees := map[ssa.CallInstruction][]*ssa.Function{}
+	for _, fn := range fns {
+		if n := cg.Nodes[fn]; n != nil {
+			for _, e := range n.Out {
+				if e.Site != nil && e.Site.Common().StaticCallee() == nil && !e.Site.Common().IsInvoke() && e.Callee.Func != nil {
+					siteCallees[e.Site] = append(siteCallees[e.Site], e.Callee.Func)
+				}
+			}
+		}
+	}
+	var curSite ssa.CallInstruction
+	calleesOf := func(cc *ssa.CallCommon) []*ssa.Function {
+		if f := cc.StaticCallee(); f != nil {
+			return []*ssa.Function{f}
+		}
+		if !cc.IsInvoke() && curSite != nil {
+			return siteCallees[curSite] // function value: callees from the VTA call graph
+		}
+		if cc.IsInvoke() {
+			var out []*ssa.Function
+			iface, _ := cc.Value.Type().Underlying().(*types.Interface)
+			for _, f := range byName[cc.Method.Name()] {
+				if iface != nil && types.Implements(f.Signature.Recv().Type(), iface) {
+					out = append(out, f)
+				}
+			}
+			return out
+		}
+		return nil
+	}
+	for round := 0; round < 8; round++ {
+		changed := false
+		mark := func(v ssa.Value) {
+			if v != nil && !shared[v] && isSliceT(v.Type()) {
+				shared[v] = true
+				changed = true
+			}
+		}
+		for _, fn := range fns {
+			allInstrs(fn, func(in ssa.Instruction) {
+				switch x := in.(type) {
+				case *ssa.UnOp:
+					if x.Op == token.MUL {
+						if fa, ok := x.X.(*ssa.FieldAddr); ok && protected(fa.X.Type()) && isSliceT(x.Type()) {
+							mark(x)
+						}
+					}
+				case *ssa.Field:
+					if protected(x.X.Type()) {
+						mark(x)
+					}
+				case *ssa.Slice:
+					if shared[x.X] {
+						mark(x)
+					}
+				case *ssa.Phi:
+					for _, e := range x.Edges {
+						if shared[e] {
+							mark(x)
+						}
+					}
+				case *ssa.ChangeType:
+					if shared[x.X] {
+						mark(x)
+					}
+				case *ssa.Call:
+					curSite = x
+					for _, k := range calleesOf(&x.Call) {
+						if rs := retShared[k]; rs != nil {
+							if x.Call.Signature().Results().Len() == 1 && rs[0] {
+								mark(x)
+							}
+						}
+						// arguments -> parameters
+						if k.Blocks != nil && inScope(k) {
+							args := x.Call.Args
+							off := 0
+							if x.Call.IsInvoke() {
+								off = 1 // receiver is not in Args for invokes
+							}
+							for i, a := range args {
+								pi := i + off
+								if shared[a] && pi < len(k.Params) {
+									mark(k.Params[pi])
+								}
+							}
+						}
+					}
+				case *ssa.Extract:
+					if call, ok := x.Tuple.(*ssa.Call); ok {
+						curSite = call
+						for _, k := range calleesOf(&call.Call) {
+							if rs := retShared[k]; rs != nil && rs[x.Index] {
+								mark(x)
+							}
+						}
+					}
+				case *ssa.Return:
+					for i, res := range x.Results {
+						vals, _ := retValues(x, i)
+						for _, v := range append(vals, res) {
+							if shared[v] {
+								if retShared[fn] == nil {
+									retShared[fn] = map[int]bool{}
+								}
+								if !retShared[fn][i] {
+									retShared[fn][i] = true
+									changed = true
+								}
+							}
+						}
+					}
+				}
+			})
+		}
+		if !changed {
+			break
+		}
+	}
+	out := map[*ssa.Function][]sharedWrite{}
+	for _, fn := range fns {
+		allInstrs(fn, func(in ssa.Instruction) {
+			switch x := in.(type) {
+			case *ssa.Call:
+				if b, ok := x.Call.Value.(*ssa.Builtin); ok && b.Name() == "append" && len(x.Call.Args) > 0 && shared[x.Call.Args[0]] {
+					out[fn] = append(out[fn], sharedWrite{in, "append-into-shared-slice"})
+				}
+				if f := x.Call.StaticCallee(); f != nil && f.Pkg != nil && f.Pkg.Pkg.Path() == "sort" && len(x.Call.Args) > 0 && shared[x.Call.Args[0]] {
+					out[fn] = append(out[fn], sharedWrite{in, "sort-shared-slice"})
+				}
+				if b, ok := x.Call.Value.(*ssa.Builtin); ok && b.Name() == "copy" && len(x.Call.Args) > 0 && shared[x.Call.Args[0]] {
+					out[fn] = append(out[fn], sharedWrite{in, "copy-into-shared-slice"})
+				}
+			case *ssa.Store:
+				if ia, ok := x.Addr.(*ssa.IndexAddr); ok && shared[ia.X] {
+					out[fn] = append(out[fn], sharedWrite{in, "store-into-shared-slice"})
+				}
+			}
+		})
+	}
+	return out
 }
